@@ -56,3 +56,7 @@ native('C01.raw_value', ['C01'], 'bounded', 'raw texts of length <= 2 over the a
 native('C24.lens', ['C24'], 'bounded', 'JSON values of depth <= 2 over scalars {null, 7, "s"} and keys {a, b} (about 60 values) x paths of length <= 3 over {[0],[1],[2],.a,.b,.c} (259 paths)',
        'aquavm-air', 'air/src/execution_step/lambda_applier/applier.rs', 'lens.rs', 'verif_native_lens::lens_agrees_with_plain_json_navigation',
        what='the real select_by_path_from_scalar / .length on the real JValue agree with plain serde_json navigation and fail with a catchable error exactly when it is impossible (checks the opaque JValue shim of unit lambda)')
+native('C22.limits', ['C22'], 'bounded', 'sizes {limit-1, limit, limit+1} (limit = 8) for script x data, and for one or two call results, in hard and soft mode (42 cases)',
+       'aquavm-air', 'air/src/preparation_step/preparation.rs', 'size_limits.rs', 'verif_native_size_limits::limits_are_exact',
+       what='real check_against_size_limits and the per-call-result check of make_exec_ctx (a closure over HashMap::values that Verus cannot take): '
+            'hard mode rejects exactly when a size is above its limit with the matching error kind; soft mode raises exactly the matching flags')
